@@ -34,9 +34,20 @@ def dtyOf : Ty → Option DTy
   | .fixed kw n _ => some (.fixed (natOfDigits n.text) (kw.kind == .zcharLb))
   | .dyn _ => some .dyn
 
+/-- `strings.Trim(value, "\"")` -/
+def trimDQuotes (s : String) : String :=
+  String.ofList (((s.toList.dropWhile (· = '"')).reverse.dropWhile (· = '"')).reverse)
+
+/-- the value of an option: the text of its value, a STRING token without its surrounding double quotes
+(`LittleEndian = "true";` means `LittleEndian = true;`) -/
+def optValueText (d : OptDecl) : String :=
+  match d.value with
+  | .tok t => if t.kind = .string then trimDQuotes t.text else t.text
+  | .ty t => t.text
+
 def optionsOf (c : Cst) : List (String × String) :=
   (c.defs.filterMap fun d => match d with
-    | .opt o => some (o.decls.map fun d => (d.name.text, d.value.text))
+    | .opt o => some (o.decls.map fun d => (d.name.text, optValueText d))
     | _ => none).flatten
 
 def configOf (opts : List (String × String)) : Config :=
